@@ -47,7 +47,7 @@ def c_tree_hash():
         for f in sorted(files):
             if f.endswith((".c", ".h", ".inc")):
                 p = os.path.join(root, f)
-                h.update(p.encode())
+                h.update(os.path.relpath(p, SYS).encode())
                 h.update(open(p, "rb").read())
     h.update(open(os.path.join(SYS, "build.rs"), "rb").read())
     h.update(open(os.path.abspath(__file__), "rb").read())
